@@ -33,9 +33,11 @@ ASSUMPTIONS = [
     "checkpoints whose total covariance is not positive definite while a source is declared (all disabled / rank deficient / cond > 1e6) "
     "are excluded by the property and skipped (counted)",
     "limits are generated so that they contain the current value (what happens to a value outside new limits is backend specific)",
+    "minimisation results are not compared when the fresh reference fit itself ran away (a parameter > 1000 x (|truth| + 1) from the value the data were generated with): no minimum, not a well-posed problem",
+    "error_band() (XYFit, fixed grid of 5 points) is an observable too: against the fresh fit at MINIMIZER tolerance, and against sqrt(diag(J C J^T)) with the covariance matrix the fit reports at that moment (2 %)",
 ]
 
-MINIMISATION_OBS = {"parameter_errors", "parameter_cov_mat", "parameter_cor_mat", "did_fit", "errors_valid"}
+MINIMISATION_OBS = {"parameter_errors", "parameter_cov_mat", "parameter_cor_mat", "did_fit", "errors_valid", "error_band()"}
 SKIP_OBS = {"asymmetric_parameter_errors", "parameter_constraints", "model_count"}
 _OBS_CACHE = {}
 
@@ -45,8 +47,16 @@ def observables(fit):
     if key not in _OBS_CACHE:
         props = [n for n, v in inspect.getmembers(type(fit), lambda o: isinstance(o, property)) if not n.startswith("_")]
         drop = {"data_container", "dynamic_error_algorithm", "model_function", "model_label", "parameter_name_value_dict"} | SKIP_OBS
-        _OBS_CACHE[key] = sorted(n for n in props if n not in drop)
+        _OBS_CACHE[key] = sorted(n for n in props if n not in drop) + (["error_band()"] if hasattr(fit, "error_band") and key == "XYFit" else [])
     return _OBS_CACHE[key]
+
+
+def _read(fit, obs):
+    """an observable is a public read-only property, or (with a trailing '()') a public query method called on a fixed grid"""
+    if obs == "error_band()":
+        x = np.asarray(fit.x_data, float)
+        return np.asarray(fit.error_band(np.linspace(x.min() - 0.1, x.max() + 0.1, 5)), float)
+    return getattr(fit, obs)
 
 
 # dependencies of observables on mutator classes (for the non-triviality rule only)
@@ -89,23 +99,32 @@ def strat(draw, tier="quick"):
         S.source(n, "x", "data", "x", 0.05) if t == "xy" else S.source(n, "x", "data", None, sc),
     )
     ref = st.integers(0, 6)
-    op = st.one_of(
-        st.fixed_dictionaries({"op": st.just("add_source"), "src": src}),
-        st.fixed_dictionaries({"op": st.sampled_from(["disable", "enable"]), "i": ref}),
-        st.fixed_dictionaries({"op": st.just("constraint"), "con": S.constraints_for(names, tb, max_n=1).filter(lambda c: len(c) == 1).map(lambda c: c[0])}),
-        st.fixed_dictionaries({"op": st.just("set_values"), "which": st.lists(ref, min_size=1, max_size=2), "d": st.lists(st.floats(-0.3, 0.3), min_size=2, max_size=2)}),
-        st.fixed_dictionaries({"op": st.just("set_all"), "d": st.lists(st.floats(-0.3, 0.3), min_size=4, max_size=4)}),
-        st.fixed_dictionaries({"op": st.sampled_from(["fix", "fix_value", "release", "limit", "unlimit"]), "i": ref, "d": st.floats(-0.2, 0.2)}),
-        st.fixed_dictionaries({"op": st.just("data"), "as": st.sampled_from(["array", "container", "container_with_sources"]), "noise": st.lists(st.floats(-1, 1), min_size=8, max_size=8),
-                               "src": S.source(n, "dsrc", "data", "y" if t == "xy" else None, sc, allow_relative=True)}),
-        st.fixed_dictionaries({"op": st.just("do_fit")}),
-        st.fixed_dictionaries({"op": st.just("read"), "obs": st.integers(0, 80)}),
-        st.fixed_dictionaries({"op": st.just("read"), "obs": st.integers(0, 80)}),
-        st.fixed_dictionaries({"op": st.just("read"), "obs": st.integers(0, 80)}),
-        st.fixed_dictionaries({"op": st.just("read_key"), "obs": st.sampled_from(["cost_function_value", "total_cov_mat", "total_error", "goodness_of_fit", "ndf", "chi2_probability",
-                                                                                   "model_error", "model_cov_mat", "data_error", "parameter_values"])}),
-    )
-    return {"spec": spec, "ops": draw(st.lists(op, min_size=2, max_size=14 if tier == "quick" else 40))}
+    key_obs = ["cost_function_value", "total_cov_mat", "total_error", "goodness_of_fit", "ndf", "chi2_probability", "model_error", "model_cov_mat", "data_error", "parameter_values"]
+    min_obs = sorted(MINIMISATION_OBS)
+    m_source = st.fixed_dictionaries({"op": st.just("add_source"), "src": src})
+    m_toggle = st.fixed_dictionaries({"op": st.sampled_from(["disable", "enable"]), "i": ref})
+    m_con = st.fixed_dictionaries({"op": st.just("constraint"), "con": S.constraints_for(names, tb, max_n=1).filter(lambda c: len(c) == 1).map(lambda c: c[0])})
+    m_set = st.fixed_dictionaries({"op": st.just("set_values"), "which": st.lists(ref, min_size=1, max_size=2), "d": st.lists(st.floats(-0.3, 0.3), min_size=2, max_size=2)})
+    m_setall = st.fixed_dictionaries({"op": st.just("set_all"), "d": st.lists(st.floats(-0.3, 0.3), min_size=4, max_size=4)})
+    m_par = st.fixed_dictionaries({"op": st.sampled_from(["fix", "fix_value", "release", "limit", "unlimit"]), "i": ref, "d": st.floats(-0.2, 0.2)})
+    m_data = st.fixed_dictionaries({"op": st.just("data"), "as": st.sampled_from(["array", "container", "container_with_sources"]), "noise": st.lists(st.floats(-1, 1), min_size=8, max_size=8),
+                                    "src": S.source(n, "dsrc", "data", "y" if t == "xy" else None, sc, allow_relative=True)})
+    do_fit = st.fixed_dictionaries({"op": st.just("do_fit")})
+    read = st.fixed_dictionaries({"op": st.just("read"), "obs": st.integers(0, 80)})
+    read_key = st.fixed_dictionaries({"op": st.just("read_key"), "obs": st.sampled_from(key_obs)})
+    read_min = st.fixed_dictionaries({"op": st.just("read_key"), "obs": st.sampled_from(min_obs)})
+    mutator = st.one_of(m_source, m_toggle, m_con, m_set, m_setall, m_par, m_data, m_data)
+    op = st.one_of(m_source, m_toggle, m_con, m_set, m_setall, m_par, m_data, do_fit, read, read, read, read_key).map(lambda o: [o])
+    # macros (expanded into plain ops; cases, replays and shrinking are unchanged).  As single ops the patterns "read X, change something X depends on" and
+    # "fit, read a result, change something, fit again" are rare in lists of <= 14 ops; the final sweep re-reads every observable, so a macro placed anywhere
+    # gives "X read - mutation - X read again" (seeded changes C01-b, C07-c: caches keyed on too little)
+    macro_read_mutate = st.tuples(st.one_of(read_key, st.just({"op": "read_key", "obs": "cost_function_value"}), st.just({"op": "read_key", "obs": "total_error"})),
+                                  mutator).map(lambda t: [t[0], t[1], t[0]])
+    fix_here = st.fixed_dictionaries({"op": st.just("fix"), "i": ref, "d": st.just(0.0)})  # fixed at the value it has: the optimum of the refit does not move
+    macro_refit = st.tuples(do_fit, st.one_of(read_min, st.just({"op": "read_key", "obs": "error_band()"})), st.one_of(fix_here, fix_here, m_source, m_toggle, m_con, m_par),
+                            do_fit).map(lambda t: [t[0], t[1], t[2], t[3], t[1]])
+    ops = st.lists(st.one_of(op, op, op, op, op, op, macro_read_mutate, macro_refit), min_size=2, max_size=14 if tier == "quick" else 40).map(lambda ll: [o for l in ll for o in l])
+    return {"spec": spec, "ops": draw(ops)}
 
 
 def _values_equal(tag, a, b, factor=1.0):
@@ -206,8 +225,14 @@ def run(case):
         nonlocal nontrivial, skipped_pd
         if obs in MINIMISATION_OBS and not cfg.fitted:
             return
+        if obs == "error_band()":
+            with guard("read:parameter_errors"):
+                pe = np.asarray(H.parameter_errors, float)
+            if not np.all(np.isfinite(pe)):
+                labels.add("error_band_skipped_nonfinite_parameter_errors")  # the minimiser did not produce uncertainties (C05-C07's subject): nothing to propagate
+                return
         with guard(f"read:{obs}"):
-            h = getattr(H, obs)
+            h = _read(H, obs)
         if isinstance(h, np.ndarray):
             h = h.copy()
         # after a fit the configuration's parameter values are the ones the fit holds
@@ -217,16 +242,30 @@ def run(case):
         if not _pd_ok(cfg, cfg.values):
             skipped_pd += 1
             return
+        if obs == "error_band()" and H.errors_valid and H.parameter_cov_mat is not None:
+            # history-free part: the band is the linear propagation of the covariance matrix the fit reports *now* (2 % as in C07: numerical derivatives)
+            rf = fs.Ref(cfg.as_spec())
+            xg = np.asarray(H.x_data, float)
+            xg = np.linspace(xg.min() - 0.1, xg.max() + 0.1, 5)
+            free = [nm for nm in names if nm not in cfg.spec["fixed"]]
+            J = rf.fam.jac(xg, rf.pvec(dict(zip(names, np.asarray(H.parameter_values, float)))))
+            J = np.array([J[rf.canon.index(nm)] for nm in free]) * (rf.y_scale or 1.0)
+            fi = [names.index(nm) for nm in free]
+            Cn = np.asarray(H.parameter_cov_mat, float)[np.ix_(fi, fi)]
+            want = np.sqrt(np.clip(np.einsum("ik,ij,jk->k", J, Cn, J), 0, None))
+            if np.all(np.isfinite(want)) and np.any(np.abs(np.asarray(h, float) - want) > 2e-2 * want + 1e-6 * np.max(want) + 1e-9 * float(np.max(np.abs(rf.d)))):
+                raise Violation("error-band-vs-reported-covariance", f"{where}: error_band = {_s(h)}, sqrt(diag(J C J^T)) with the covariance matrix the fit reports now = {_s(want)}; "
+                                f"fixed {sorted(cfg.spec['fixed'])}")
         try:
             if obs in MINIMISATION_OBS:
                 F = fresh(do_fit_from=cfg.start_before_fit)
             else:
                 F = fresh()
-            f = getattr(F, obs)
+            f = _read(F, obs)
         except Exception as e:
             raise Violation(f"fresh-fit-raises:{obs}", f"{where}: a fresh fit in the same configuration raises {type(e).__name__}: {e}")
         if obs in MINIMISATION_OBS:
-            ok = _min_equal(obs, h, f, H, F)
+            ok = _min_equal(obs, h, f, H, F, tb)
         else:
             factor = 1e4 if "inverse" in obs else (10.0 if "cor_mat" in obs else 1.0)
             ok = _values_equal(obs, h, f, factor)
@@ -237,7 +276,7 @@ def run(case):
             # bug model of KF-C03-1 (same root cause as KF-C15-3): with iminuit parameter_errors are MIGRAD's running estimates, which depend on the path of
             # the minimisation, while the HESSE covariance matrices of the two fits agree
             try:
-                if _min_equal("parameter_cov_mat", H.parameter_cov_mat, F.parameter_cov_mat, H, F) and np.all(np.abs(np.asarray(h, float)) < 10 * np.abs(np.asarray(f, float)) + 1e-300):
+                if _min_equal("parameter_cov_mat", H.parameter_cov_mat, F.parameter_cov_mat, H, F, tb) and np.all(np.abs(np.asarray(h, float)) < 10 * np.abs(np.asarray(f, float)) + 1e-300):
                     facet_obs = "parameter_errors-migrad-estimate"
             except Exception:  # noqa
                 pass
@@ -409,7 +448,7 @@ def _s(v):
         return repr(v)
 
 
-def _min_equal(obs, h, f, H, F):
+def _min_equal(obs, h, f, H, F, truth=None):
     if obs in ("did_fit", "errors_valid"):
         return bool(h) == bool(f)
     if not F.errors_valid:
@@ -447,8 +486,19 @@ def _min_equal(obs, h, f, H, F):
             pass
     if not np.isfinite(cond_cor) or cond_cor > 1e4:
         return True
+    # the *fresh* fit ran away from the region where the data were generated (a parameter more than 1000 x (|truth| + 1) from the truth: the cost has no
+    # minimum there, e.g. a peak model on data that lost the peak): the configuration is not a well-posed problem, curvatures at "infinity" are noise
+    if truth is not None:
+        try:
+            pf = dict(zip(F.parameter_names, np.asarray(F.parameter_values, float)))
+            if any(abs(pf[nm] - truth[nm]) > 1e3 * (abs(truth[nm]) + 1.0) for nm in pf if nm in truth):
+                return True
+        except Exception:  # noqa
+            pass
     if cond_cor > 1e3:
         rel *= 3
+    if obs == "error_band()":
+        return bool(np.all((np.abs(h - f) <= 2 * rel * np.maximum(np.abs(h), np.abs(f)) + 1e-300) | both_nan))  # half-widths: relative; the precise (history-free) check is in compare()
     if obs == "parameter_errors":
         return bool(np.all((np.abs(h - f) <= rel * e + 1e-300) | both_nan))
     if obs == "parameter_cov_mat":
